@@ -460,7 +460,8 @@ func VerifFxDecode(typ uint8, body []byte) (VerifPkt, error) {
 	t := sshfx.PacketType(typ)
 	switch t {
 	case sshfx.PacketTypeInit, sshfx.PacketTypeVersion:
-		full := append([]byte{typ}, body...)
+		// InitPacket/VersionPacket.UnmarshalBinary expect the type byte to have been consumed already.
+		full := append([]byte(nil), body...)
 		if t == sshfx.PacketTypeInit {
 			var p sshfx.InitPacket
 			if err := p.UnmarshalBinary(full); err != nil {
